@@ -8,7 +8,7 @@ from ..gen import EXTRA, Kernel, Untranslatable, all_stmts, assign_value, find_a
 from ..pyexpr import ExprTr, emit_def, find_function, parse_file
 
 F = "direct/common/subsample.py"
-MG = ("DirectVerif.Model.MaskGeom",)
+MG = ("DirectVerif.Model.MaskGeom", "DirectVerif.Model.C04Poisson", "DirectVerif.Model.C04Tables")   # the latter for the `.pyx` tables of EXTRA
 FRAMED = "self.mode in [MaskFuncMode.DYNAMIC, MaskFuncMode.MULTISLICE]"
 GENERATORS = [
     "FastMRIRandom", "CartesianRandom", "FastMRIEquispaced", "CartesianEquispaced", "FastMRIMagic",
@@ -659,6 +659,281 @@ def assembly_table(tree) -> str:
         rows.append(f'("{name}", {_lean_bexp(_join(a.returns["mask"]))}, {_lean_bexp(_join(a.returns["acs"]))})')
     return ("def assembly_table : List (String × MaskGeom.BExp × MaskGeom.BExp) :=\n  [" + ",\n   ".join(rows) + "]\n")
 
+# ---------------------------------------------------------------------------------------------------
+# `direct/common/_poisson.pyx`: integer / boolean logic as definitions, float statements as located text
+PYX = "direct/common/_poisson.pyx"
+MGP = ("DirectVerif.Model.C04Poisson",)
+
+
+def _norm(node) -> str:
+    return ast.unparse(node).replace(" ", "")
+
+
+def poisson_pyx(_tree) -> str:
+    from ..gen import REPO
+    import boot  # the .pyx front-end (cdef / type annotations stripped) lives there
+
+    try:
+        tree = ast.parse(boot.pyx_to_python((REPO / PYX).read_text()))
+    except (OSError, SyntaxError) as e:
+        raise Untranslatable(f"cannot parse the front-end output for {PYX}: {e}")
+    fn = find_function(tree, "poisson")
+    body = fn.body
+    # `with nogil:` became `if True:`
+    blocks = [st for st in body if isinstance(st, ast.If) and _norm(st.test) == "True"]
+    if len(blocks) != 1:
+        raise Untranslatable("`with nogil:` block not found")
+    main = blocks[0].body
+    outer = [st for st in main if isinstance(st, ast.While)]
+    if len(outer) != 1 or outer[0].orelse:
+        raise Untranslatable("outer `while` not found")
+    outer = outer[0]
+    inner = [st for st in outer.body if isinstance(st, ast.While)]
+    if len(inner) != 1 or inner[0].orelse:
+        raise Untranslatable("attempt loop not found")
+    inner = inner[0]
+    tail = [st for st in outer.body if isinstance(st, ast.If)]
+    if len(tail) != 1 or _norm(tail[0].test) != "done" or not tail[0].orelse:
+        raise Untranslatable("`if done: … else: …` not found")
+    tail = tail[0]
+    grid = [st for st in inner.body if isinstance(st, ast.If)]
+    if len(grid) != 1 or grid[0].orelse:
+        raise Untranslatable("grid test of the attempt loop not found")
+    grid = grid[0]
+
+    def assigns(stmts):
+        out = []
+        for st in stmts:
+            if isinstance(st, ast.Assign) and len(st.targets) == 1:
+                out.append((_norm(st.targets[0]), _norm(st.value)))
+            elif isinstance(st, ast.AugAssign):
+                out.append((_norm(st.target), _norm(st.target) + {ast.Add: "+", ast.Sub: "-"}.get(type(st.op), "?") + _norm(st.value)))
+        return out
+
+    facts: list[tuple[str, str]] = []
+    pre = [st for st in body if not (isinstance(st, ast.If) and _norm(st.test) == "True")]
+    facts.append(("srand", ";".join(_norm(st) for st in pre if isinstance(st, ast.Expr) and isinstance(st.value, ast.Call)
+                                     and _norm(st.value.func) == "srand")))
+    facts.append(("capacity", ";".join(f"{t}={v}" for t, v in assigns(pre) if t in ("pxs", "pys"))))
+    facts.append(("init", ";".join(f"{t}={v}" for t, v in assigns([st for st in main if not isinstance(st, ast.While)]))))
+    facts.append(("select", ";".join(f"{t}={v}" for t, v in assigns([st for st in outer.body[:outer.body.index(inner)]]))))
+    facts.append(("attempt", ";".join(f"{t}={v}" for t, v in assigns([st for st in inner.body if st is not grid]))))
+    facts.append(("window", ";".join(f"{t}={v}" for t, v in assigns(grid.body))))
+    loops = [st for st in grid.body if isinstance(st, ast.For)]
+    if len(loops) != 1 or not isinstance(loops[0].body[0], ast.For):
+        raise Untranslatable("window loops not found")
+    lx, ly = loops[0], loops[0].body[0]
+    facts.append(("loops", f"for{_norm(lx.target)}in{_norm(lx.iter)};for{_norm(ly.target)}in{_norm(ly.iter)}"))
+    facts.append(("distance", ";".join(f"{t}={v}" for t, v in assigns(ly.body))))
+    tests = [st for st in ly.body if isinstance(st, ast.If)]
+    if len(tests) != 1 or tests[0].orelse:
+        raise Untranslatable("conflict test not found")
+    facts.append(("conflict", _norm(tests[0].test) + "=>" + ";".join(
+        (f"{a[0]}={a[1]}" if (a := (assigns([st]) or [None])[0]) else _norm(st)) for st in tests[0].body)))
+    facts.append(("accept", ";".join(f"{t}={v}" for t, v in assigns(tail.body))))
+    facts.append(("remove", ";".join(f"{t}={v}" for t, v in assigns(tail.orelse))))
+    helpers = {}
+    for name in ("random_uniform", "randint"):
+        h = find_function(tree, name)
+        helpers[name] = ";".join([f"{t}={v}" for t, v in assigns(h.body)] + [_norm(st) for st in h.body if isinstance(st, ast.Return)])
+    facts.append(("random_uniform", helpers["random_uniform"]))
+    facts.append(("randint", helpers["randint"]))
+    esc = lambda t: t.replace("\\", "\\\\").replace('"', '\\"')
+    out = ["def pyx_facts : List (String × String) :=\n  [" + ",\n   ".join(f'("{k}", "{esc(v)}")' for k, v in facts) + "]\n"]
+    # integer / boolean logic as definitions
+    tr = Tr({"num_actives": "na", "k": "k", "max_attempts": "ma", "qx": "qx", "qy": "qy", "nx": "nx", "ny": "ny"},
+            {"done": "(done != 0)"})
+    out.append(emit_def("pyx_outer_guard", ["na"], [], tr.bool(outer.test), "Bool"))
+    out.append(emit_def("pyx_attempt_guard", ["done", "k", "ma"], [], tr.bool(inner.test), "Bool"))
+    out.append(emit_def("pyx_in_grid", ["qx", "qy", "nx", "ny"], [], tr.bool(grid.test), "Bool"))
+
+    def aug(stmts, target):
+        for st in stmts:
+            if isinstance(st, ast.AugAssign) and _norm(st.target) == target and isinstance(st.op, (ast.Add, ast.Sub)):
+                v = tr.int(st.value)
+                return f"({tr.binds[target]} {'+' if isinstance(st.op, ast.Add) else '-'} {v})"
+        raise Untranslatable(f"update of `{target}` not found")
+
+    out.append(emit_def("pyx_na_accept", ["na"], [], aug(tail.body, "num_actives")))
+    out.append(emit_def("pyx_na_remove", ["na"], [], aug(tail.orelse, "num_actives")))
+    out.append(emit_def("pyx_k_step", ["k"], [], aug(inner.body, "k")))
+    return "\n".join(out)
+
+
+# ---------------------------------------------------------------------------------------------------
+# tables about ALL mask-function classes (not a fixed list) and their callers
+MUTATORS = {"append", "extend", "update", "add", "insert", "pop", "clear", "setdefault", "remove", "popitem", "sort", "reverse"}
+
+
+def _maskfunc_classes(tree):
+    """classes of the module deriving (transitively, by name) from BaseMaskFunc, in source order"""
+    classes = _classes(tree)
+    out = []
+    for name, node in classes.items():
+        seen, cur = set(), name
+        while cur in classes and cur not in seen:
+            seen.add(cur)
+            if cur == "BaseMaskFunc":
+                out.append(name)
+                break
+            bases = [b.id for b in classes[cur].bases if isinstance(b, ast.Name)]
+            if not bases:
+                break
+            cur = bases[0]
+    return classes, out
+
+
+def _self_attr(node):
+    """`self.x`, `self.x[...]`, `cls.x`, `ClassName.x` as text; None otherwise"""
+    while isinstance(node, ast.Subscript):
+        node = node.value
+    if isinstance(node, ast.Attribute) and isinstance(node.value, ast.Name):
+        return f"{node.value.id}.{node.attr}"
+    return None
+
+
+def state_table(tree) -> str:
+    classes, names = _maskfunc_classes(tree)
+    if len(names) < 15:
+        raise Untranslatable(f"only {len(names)} classes derive from BaseMaskFunc")
+    rows = []
+    for cname in names:
+        cls = classes[cname]
+        methods = [n for n in cls.body if isinstance(n, ast.FunctionDef)]
+        # who calls whom through `self.<m>(…)`
+        callers: dict[str, set[str]] = {}
+        for m in methods:
+            for n in ast.walk(m):
+                if (isinstance(n, ast.Call) and isinstance(n.func, ast.Attribute) and isinstance(n.func.value, ast.Name)
+                        and n.func.value.id == "self"):
+                    callers.setdefault(n.func.attr, set()).add(m.name)
+        for m in methods:
+            init_only = m.name == "__init__" or (m.name in callers and callers[m.name] <= {"__init__"})
+            written = []
+            for n in ast.walk(m):
+                tgts = []
+                if isinstance(n, ast.Assign):
+                    tgts = n.targets
+                elif isinstance(n, (ast.AugAssign, ast.AnnAssign)):
+                    tgts = [n.target]
+                elif isinstance(n, ast.Delete):
+                    tgts = n.targets
+                for t in tgts:
+                    for e in (t.elts if isinstance(t, (ast.Tuple, ast.List)) else [t]):
+                        a = _self_attr(e)
+                        if a is not None and a.split(".")[0] in ("self", "cls", *classes):
+                            written.append(a)
+                if isinstance(n, (ast.Global, ast.Nonlocal)):
+                    written += [f"global {g}" for g in n.names]
+                if isinstance(n, ast.Call):
+                    f = n.func
+                    if isinstance(f, ast.Name) and f.id == "setattr":
+                        written.append("setattr(" + ast.unparse(n.args[0]) + ")" if n.args else "setattr")
+                    if (isinstance(f, ast.Attribute) and f.attr in MUTATORS):
+                        a = _self_attr(f.value)
+                        if a is not None and a.split(".")[0] in ("self", "cls", *classes) and a != "self.rng":
+                            written.append(f"{a}.{f.attr}()")
+            for w in dict.fromkeys(written):
+                rows.append(f'("{cname}", "{m.name}", "{w}", {"true" if init_only else "false"})')
+    # module-level functions of the module must not use `global` either
+    for n in tree.body:
+        if isinstance(n, ast.FunctionDef):
+            for g in ast.walk(n):
+                if isinstance(g, ast.Global):
+                    rows.append(f'("<module>", "{n.name}", "global {",".join(g.names)}", false)')
+    return "def state_table : List C04Tables.StateRow :=\n  [" + ",\n   ".join(rows) + "]\n"
+
+
+def class_table(tree) -> str:
+    classes, names = _maskfunc_classes(tree)
+    rows = []
+    for cname in names:
+        try:
+            fn = _resolve(classes, cname, "mask_func")
+        except Untranslatable:
+            continue
+        rets = [n for n in ast.walk(fn) if isinstance(n, ast.Return)]
+        if not rets:
+            continue                         # the abstract method (raises NotImplementedError)
+        # same classification as `return_table`
+        events = sorted([(n.lineno, n) for n in ast.walk(fn)
+                         if (isinstance(n, ast.Assign) and len(n.targets) == 1 and isinstance(n.targets[0], ast.Name))
+                         or isinstance(n, ast.Return)], key=lambda e: e[0])
+        state: dict[str, bool] = {}
+
+        def wrapped(e):
+            if _is_wrap(e) is not None:
+                return True
+            if isinstance(e, ast.Name):
+                return state.get(e.id, False)
+            if isinstance(e, ast.BinOp) and isinstance(e.op, ast.BitOr):
+                return wrapped(e.left) and wrapped(e.right)
+            return False
+
+        ok = True
+        for _, n in events:
+            if isinstance(n, ast.Assign):
+                state[n.targets[0].id] = _is_wrap(n.value) is not None
+            else:
+                ok = ok and n.value is not None and wrapped(n.value)
+        rows.append(f'("{cname}", {"true" if ok else "false"})')
+    return "def class_table : List (String × Bool) :=\n  [" + ",\n   ".join(rows) + "]\n"
+
+
+CALLER_FILES = ["direct/data/mri_transforms.py", "direct/data/transforms.py", "direct/train.py", "direct/predict.py",
+                "direct/data/datasets.py", "direct/ssl/mri_transforms.py", "direct/environment.py"]
+
+
+def call_sites(_tree) -> str:
+    from ..gen import REPO
+
+    rows = []
+    for rel in sorted({str(p.relative_to(REPO)) for p in (REPO / "direct").rglob("*.py")}):
+        if rel == F:
+            continue
+        try:
+            src = (REPO / rel).read_text()
+        except OSError:
+            continue
+        if "mask_func" not in src:
+            continue
+        try:
+            tree = ast.parse(src)
+        except SyntaxError as e:
+            raise Untranslatable(f"{rel}: {e}")
+        stack: list[str] = []
+
+        def visit(node):
+            named = isinstance(node, (ast.FunctionDef, ast.ClassDef))
+            if named:
+                stack.append(node.name)
+            if isinstance(node, ast.Call):
+                f = node.func
+                last = f.attr if isinstance(f, ast.Attribute) else f.id if isinstance(f, ast.Name) else None
+                if last == "mask_func":
+                    kws = ", ".join(f'"{k.arg}"' for k in node.keywords if k.arg is not None)
+                    star = sum(1 for k in node.keywords if k.arg is None) + sum(1 for a in node.args if isinstance(a, ast.Starred))
+                    rows.append(f'("{rel}", "{".".join(stack)}", "{ast.unparse(f)}", [{kws}], {len(node.args) + star})')
+            for ch in ast.iter_child_nodes(node):
+                visit(ch)
+            if named:
+                stack.pop()
+
+        visit(tree)
+    if not rows:
+        raise Untranslatable("no call of a mask function found outside subsample.py")
+    return "def call_sites : List C04Tables.CallRow :=\n  [" + ",\n   ".join(rows) + "]\n"
+
+
+_POISSON_PYX_FALLBACK = ("def pyx_facts : List (String × String) := C04Poisson.pyxFacts\n"
+                         "def pyx_outer_guard (na : Int) : Bool := decide (na > 0)\n"
+                         "def pyx_attempt_guard (done : Int) (k : Int) (ma : Int) : Bool := (!(done != 0)) && decide (k < ma)\n"
+                         "def pyx_in_grid (qx : Int) (qy : Int) (nx : Int) (ny : Int) : Bool :=\n"
+                         "  decide (qx ≥ 0) && decide (qx < nx) && decide (qy ≥ 0) && decide (qy < ny)\n"
+                         "def pyx_na_accept (na : Int) : Int := na + 1\n"
+                         "def pyx_na_remove (na : Int) : Int := na - 1\n"
+                         "def pyx_k_step (k : Int) : Int := k + 1\n")
+
 FALLBACKS = {
     "reshape_tables": ("def reshape_assign : List (Nat × Nat) := MaskGeom.reshapeAssign\n"
                        "def reshape_assign_framed : List (Nat × Nat) := MaskGeom.reshapeAssignFramed\n"),
@@ -669,6 +944,13 @@ FALLBACKS = {
                        "  MaskGeom.Gen.all.map fun g => (g.name, .or .draw .acs, .acs)\n"),
     "clamp_table": "def clamp_KtUniform : Option (Int × Int) := some (0, 1)\ndef clamp_KtGaussian1D : Option (Int × Int) := none\n",
     "poisson_radius_table": "def poisson_radius_floor : List (String × Int) := MaskGeom.poissonRadiusFloor\n",
+    "poisson_pyx": _POISSON_PYX_FALLBACK,
+    "state_table": "def state_table : List C04Tables.StateRow := C04Tables.stateTable\n",
+    "class_table": ("def class_table : List (String × Bool) :=\n"
+                    "  C04Tables.inScope.map fun c => (c, true)\n"),
+    "call_sites": ("def call_sites : List C04Tables.CallRow :=\n"
+                   '  [("direct/data/mri_transforms.py", "CreateSamplingMask.__call__", "self.mask_func", '
+                   '["shape", "seed", "return_acs"], 0)]\n'),
     "build_table": ("def build_table : List (String × Bool × Bool × Bool × Bool) := MaskGeom.buildTable\n"
                     "def kt_mode_pinned_dynamic : Bool := true\n"),
 }
@@ -683,7 +965,9 @@ def _extra():
     except Untranslatable as e:
         tree, err = None, e
     for key, fn in (("reshape_tables", reshape_tables), ("broadcast_table", broadcast_table),
-                    ("return_table", return_table), ("assembly_table", assembly_table), ("clamp_table", clamp_table), ("poisson_radius_table", poisson_radius_table), ("build_table", build_table)):
+                    ("return_table", return_table), ("assembly_table", assembly_table), ("clamp_table", clamp_table), ("poisson_radius_table", poisson_radius_table), ("build_table", build_table),
+                    ("poisson_pyx", poisson_pyx), ("state_table", state_table), ("class_table", class_table),
+                    ("call_sites", call_sites)):
         try:
             if tree is None:
                 raise err
